@@ -35,7 +35,9 @@ PLATFORMS: tuple[Platform, ...] = ("linux/amd64", "linux/arm64")
 # conversion is purely structural.
 _PEP440_LABELS = {"a", "b", "rc"}
 
-_SEMVER_PRERELEASE_RE = re.compile(r"^(\d+\.\d+\.\d+)-([a-zA-Z]+)\.(\d+)$")
+# The release part may have any number of components: pep440_to_semver() keeps the
+# release tuple as it is (1.1a1 -> 1.1-a.1), and that must convert back.
+_SEMVER_PRERELEASE_RE = re.compile(r"^(\d+(?:\.\d+)*)-([a-zA-Z]+)\.(\d+)$")
 
 
 def run_command(
